@@ -79,7 +79,10 @@ class Recorder:
 
 
 def part_data(p):
-    ds = [parsemodel.dir_data(d) for d in p.directives]
+    try:
+        ds = [parsemodel.dir_data(d) for d in p.directives]
+    except Exception:
+        ds = Sym('raise')       # lazily extracted directives that fail to parse
     return [Sym('part'), list(p.exec_lines), list(p.want_lines or []), p.line_offset, list(p.orig_lines or []),
             ds, Sym(p.compile_mode)]
 
@@ -88,7 +91,11 @@ def requires_table(parts):
     from xdoctest import directive
     tab = {}
     for p in parts:
-        for d in p.directives:
+        try:
+            pds = p.directives
+        except Exception:
+            continue
+        for d in pds:
             if d.name == 'REQUIRES':
                 for a in d.args:
                     if a not in tab:
